@@ -67,6 +67,23 @@ theorem sum_range_mul (a b : Nat) (g : Nat → Nat → R) :
     rw [Nat.mul_comm a b, Nat.mul_add_div hb, Nat.div_eq_of_lt hi', Nat.mul_add_mod, Nat.mod_eq_of_lt hi']
     simp
 
+theorem inside_setAxis' (s : List Nat) (p : List Int) (axis : Nat) (v : Int) (hp : inside s p = true)
+    (h0 : 0 ≤ v) (h1 : v < ((s.getD axis 1 : Nat) : Int)) : inside s (setAxis p axis v) = true := by
+  induction s generalizing p axis with
+  | nil => cases p <;> simp_all [inside, setAxis]
+  | cons d ds ih =>
+    cases p with
+    | nil => simp [inside] at hp
+    | cons x xs =>
+      simp only [inside, Bool.and_eq_true, decide_eq_true_eq] at hp
+      cases axis with
+      | zero =>
+        simp only [setAxis, inside, Bool.and_eq_true, decide_eq_true_eq]
+        exact ⟨⟨h0, by simpa using h1⟩, hp.2⟩
+      | succ a =>
+        simp only [setAxis, inside, Bool.and_eq_true, decide_eq_true_eq]
+        exact ⟨hp.1, ih xs a hp.2 (by simpa using h1)⟩
+
 /-! ### function-level operators -/
 
 /-- value of `G` at an optional position (a dropped sample contributes 0) -/
@@ -211,6 +228,101 @@ theorem passes_eq_convG (m : Mode) (s : List Nat) (ws : Nat → Array R) (G : Li
       rw [Int.add_sub_assoc]
       simp only [Int.ofNat_eq_natCast]
       ring
+
+/-! ### from images to functions of positions -/
+
+/-- the defining sum with the kernel embedded on `axis`, at an inside pixel, is the pass operator -/
+theorem convSpec_embed_eq_axisOp (m : Mode) (cur : Img R) (a : Nat) (w : Array R) (q : List Int)
+    (hq : inside cur.shape q = true) (ha : a < cur.shape.length) :
+    convSpec m cur (embedShape cur.shape.length a w.size) w q =
+      axisOp m cur.shape a w (fun q' => cur.getD q' 0) q := by
+  unfold convSpec axisOp
+  rw [shapeSize_embedShape _ _ _ ha]
+  apply congrArg
+  apply List.map_congr_left
+  intro j hj
+  rw [addPos_offsetOf_embed _ _ _ _ q ha (List.mem_range.1 hj) (inside_length _ _ hq),
+    specSample_eq_pick, specPos_setAxis m cur.shape q a _ hq ha]
+  cases borderSpec m (q.getD a 0 + (j : Int) - ((w.size / 2 : Nat) : Int)) ((cur.shape.getD a 1 : Nat) : Int) <;> rfl
+
+/-- a pass only reads its argument at inside positions -/
+theorem axisOp_congr (m : Mode) (s : List Nat) (a : Nat) (w : Array R) (G G' : List Int → R)
+    (ha : a < s.length) (h : ∀ q, inside s q = true → G q = G' q) (p : List Int) (hp : inside s p = true) :
+    axisOp m s a w G p = axisOp m s a w G' p := by
+  have hN : (0 : Int) < ((s.getD a 1 : Nat) : Int) := by
+    have := getD_lt_of_inside s p a hp ha; omega
+  unfold axisOp
+  apply congrArg
+  apply List.map_congr_left
+  intro j _
+  cases hb : borderSpec m (p.getD a 0 + (j : Int) - ((w.size / 2 : Nat) : Int)) ((s.getD a 1 : Nat) : Int) with
+  | none => rfl
+  | some o =>
+    have ho := borderSpec_range m _ _ hN o hb
+    simp only [Option.map_some, pick]
+    rw [h _ (inside_setAxis' s p a o hp ho.1 ho.2)]
+
+theorem passes_congr (m : Mode) (s : List Nat) (ws : Nat → Array R) (l : List Nat)
+    (hl : ∀ a ∈ l, a < s.length) (G G' : List Int → R) (h : ∀ q, inside s q = true → G q = G' q) :
+    ∀ p, inside s p = true → passes m s ws l G p = passes m s ws l G' p := by
+  induction l generalizing G G' with
+  | nil => exact h
+  | cons a t ih =>
+    intro p hp
+    simp only [passes, List.foldl_cons] at ih ⊢
+    exact ih (fun b hb => hl b (by simp [hb])) _ _
+      (fun q hq => axisOp_congr m s a (ws a) G G' (hl a (by simp)) h q hq) p hp
+
+/-- the fold of `gaussian_filter` read pointwise: the passes on functions of positions -/
+theorem gaussianFold_eq_passes (isZero : R → Bool) (hz : ∀ x, isZero x = true → x = 0) (m : Mode)
+    (ws : Nat → Array R) (s : List Nat) (l : List Nat) (hl : ∀ a ∈ l, a < s.length) (cur : Img R)
+    (hs : cur.shape = s) :
+    (l.foldl (fun cur ax => gaussianPass id isZero m cur ax (ws ax)) cur).shape = s ∧
+    ∀ p, inside s p = true →
+      (l.foldl (fun cur ax => gaussianPass id isZero m cur ax (ws ax)) cur).getD p 0 =
+        passes m s ws l (fun q => cur.getD q 0) p := by
+  induction l generalizing cur with
+  | nil => exact ⟨hs, fun p _ => rfl⟩
+  | cons a t ih =>
+    have ha : a < cur.shape.length := by rw [hs]; exact hl a (by simp)
+    obtain ⟨h1, h2⟩ := ih (fun b hb => hl b (by simp [hb])) (gaussianPass id isZero m cur a (ws a))
+      (by rw [gaussianPass_shape, hs])
+    simp only [List.foldl_cons]
+    refine ⟨h1, fun p hp => ?_⟩
+    rw [h2 p hp]
+    show passes m s ws t _ p = passes m s ws t (axisOp m s a (ws a) fun q => cur.getD q 0) p
+    apply passes_congr m s ws t (fun b hb => hl b (by simp [hb])) _ _ _ p hp
+    intro q hq
+    have hq' : inside cur.shape q = true := by rw [hs]; exact hq
+    rw [gaussianPass_eq_tabulate id isZero hz m cur a (ws a) ha, tabulate_getD _ _ q 0 hq',
+      convSpec_embed_eq_axisOp m cur a (ws a) q hq' ha, hs]
+    rfl
+
+theorem outerKernel_getD (n : Nat) (ws : Nat → Array R) (i : Nat) (hi : i < shapeSize (outerShape n ws)) :
+    (outerKernel n ws).getD i 0 = outerWeight n ws i := by
+  unfold outerKernel
+  rw [Array.getD_eq_getD_getElem?]
+  simp [hi]
+
+/-- **separability, pointwise**: `gaussian_filter` with exact arithmetic and no rounding between the
+    passes = the n-D defining sum with the outer-product kernel, at every pixel, in every mode -/
+theorem gaussianFilterG_separable (isZero : R → Bool) (hz : ∀ x, isZero x = true → x = 0) (m : Mode)
+    (f : Img R) (ws : Nat → Array R) :
+    (gaussianFilterG id isZero m f ws).shape = f.shape ∧
+    ∀ p, inside f.shape p = true →
+      (gaussianFilterG id isZero m f ws).getD p 0 =
+        convSpec m f (outerShape f.shape.length ws) (outerKernel f.shape.length ws) p := by
+  obtain ⟨h1, h2⟩ := gaussianFold_eq_passes isZero hz m ws f.shape (List.range f.shape.length)
+    (fun a ha => List.mem_range.1 ha) f rfl
+  refine ⟨h1, fun p hp => ?_⟩
+  unfold gaussianFilterG
+  rw [h2 p hp, passes_eq_convG m f.shape ws _ p (inside_length _ _ hp), convSpec_eq_convG]
+  unfold convG
+  apply congrArg
+  apply List.map_congr_left
+  intro i hi
+  beta_reduce
+  rw [outerKernel_getD _ _ i (List.mem_range.1 hi)]
 
 end semiring
 end Mahotas.C06
